@@ -268,6 +268,12 @@ def _(prop, case, v):
     return case.get("kind") == "hist" and v.get("sig") == "key-condition-shape"
 
 
+@rule("KF-C09-unevaluated-expression")
+def _(prop, case, v):
+    # the judge only raises this signature when no stored item reaches the malformed expression
+    return case.get("kind") == "hist" and v.get("sig") == "unevaluated-malformed-expression"
+
+
 @rule("KF-C06-root-scalar-path")
 def _(prop, case, v):
     if case.get("kind") == "update" and v.get("sig") == "update-rejected":
